@@ -1,10 +1,10 @@
 """C01, C02, C03 (and the shared pipeline: TLC MC_Layout -> replay -> both compilers)."""
 import json, os, time
 from .common import *
-from . import tlc, harness, rustobs, conform
+from . import tlc, harness, rustobs, conform, trace
 from .result import Result
 
-CFG = {"quick": ["MC_Layout_quick.cfg"], "thorough": ["MC_Layout_t1.cfg", "MC_Layout_t2.cfg", "MC_Layout_t3.cfg"]}
+CFG = {"quick": ["MC_Layout_q1.cfg", "MC_Layout_q2.cfg"], "thorough": ["MC_Layout_t1.cfg", "MC_Layout_t2.cfg", "MC_Layout_t3.cfg"]}
 
 
 def render_text(case_or_input):
@@ -154,6 +154,7 @@ def run_layout(pid, tier):
     cov = pl.base_coverage()
     n_acc = n_checked = n_model_viol = rust_bad = 0
     distinct = set()
+    undecided = []      # (case, obs): behaviours on which code and mirror differ -> decided by TLC on the observed values
     for case, obs in pl.pairs():
         cid = case["id"]
         ptr = case["input"]["ptr"]
@@ -171,6 +172,9 @@ def run_layout(pid, tier):
             d += conform.reg_drift(case["mirror"]["reg"], obs.get("reg"))
             d += conform.files_drift(case["mirror"]["out"], obs.get("files"))
         res.add_drift(d, cid)
+        if need_compile and obs["accepted"] and (d or cid % 97 == 0) and len(undecided) < 20000:
+            undecided.append(({"id": cid, "input": case["input"], "group": case.get("group"), "order": case.get("order"),
+                               "sched": case.get("sched"), "accepted": case["accepted"], "oracle": {}}, obs, bool(d)))
 
         if pid == "C03":
             if not oracle["plain"]:
@@ -258,6 +262,26 @@ def run_layout(pid, tier):
                 res.sample({"input": case["input"],
                             "resolved": [{"path": e["path"], "size": e["res"]["size"], "align": e["res"]["align"]}
                                          for e in obs.get("reg", []) if e["st"] == "R"]})
+    # ---- direction B: TLC evaluates the property on what the code actually did
+    if undecided:
+        recs, back = [], {}
+        for case, obs, drifted in undecided:
+            for ti, tgt in enumerate(pl.targets_for(case["input"]["ptr"])):
+                if case["id"] in pl.cfail[tgt]:
+                    continue
+                rid = case["id"] * 4 + ti
+                r = trace.record(case, obs, lambda path, oi, tgt=tgt, cid=case["id"]: pl.layout_of(tgt, cid, path, oi))
+                r["id"] = rid
+                recs.append(r)
+                back[rid] = (case, obs, tgt, drifted)
+        verdicts, tst = trace.evaluate(recs, os.path.join(pl.dir, "trace"))
+        cov["trace_validation"] = dict(tst, drifted=sum(1 for _, _, d_ in undecided if d_))
+        for rid, viol in verdicts.items():
+            case, obs, tgt, drifted = back[rid]
+            if pid in viol:
+                res.violation(f"{pid} is false on the observed behaviour (evaluated by TLC on the recorded registry, emitted items "
+                              f"and {tgt} rustc layouts; code and mirror {'disagree' if drifted else 'agree'} on this case)",
+                              payload(case, obs, {"target": tgt}), None)
     if rust_bad:
         raise ToolError("rustc model invalid: RustLayout.tla disagrees with the real compiler:\n" + "\n".join(res.notes[:5]))
     cov.update({"evaluations": n_checked, "distinct_nontrivial": len(distinct),
